@@ -447,6 +447,14 @@ func vRunTrigCase(c *vCase, prop string) {
 			nchan = 2 + r.Intn(3)
 		}
 	}
+	// directed family: edge-multi with a short pre-trigger and a long record, and the trigger point moved far up and
+	// down again several times during the run (a pulse waiting for its successor is cut under other lengths than it was found under)
+	emtRaise := prop == "C01" && c.Idx%5 == 2
+	if emtRaise {
+		mode = "emt"
+		npre = 4 + r.Intn(6)
+		nsamp = npre + 30 + r.Intn(60)
+	}
 	tr := &vTrigRun{c: c, nchan: nchan, npre: npre, nsamp: nsamp, period: period, fixed: true, cuts: map[FrameIndex]bool{}}
 	if mode == "emt" || mode == "emtgroup" {
 		if npre < 4 {
@@ -587,10 +595,24 @@ func vRunTrigCase(c *vCase, prop string) {
 	}
 	reconfAt := map[int]string{}
 	for k := 0; k < nreconf && len(tr.blocks) > 2; k++ {
-		reconfAt[1+r.Intn(len(tr.blocks)-1)] = vPick(r, "trig", "trig", "len-same", "len-change")
+		reconfAt[1+r.Intn(len(tr.blocks)-1)] = vPick(r, "trig", "trig", "len-same", "len-change", "npre-only")
 	}
-	c.Describe("%s nchan=%d signed=%v npre/nsamp=%d/%d first=%d period=%v total=%d style=%d part=%s(%d blocks) mode=%s how0=%s set0=%s reconf=%v jitter=%v",
-		prop, nchan, signed, tr.npre, tr.nsamp, firstFrame, period, total, style, vPartitionName(pkind), len(tr.blocks), mode, how0, set0[0].desc, reconfAt, tr.jitter)
+	if emtRaise && len(tr.blocks) > 2 {
+		reconfAt = map[int]string{}
+		for k := 0; k < 4+r.Intn(8); k++ {
+			reconfAt[1+r.Intn(len(tr.blocks)-1)] = "npre-swing"
+		}
+		c.Cov("emt_npre_swing_cases", 1)
+	}
+	// requests that are refused (invalid edge-multi parameters): they must leave the stream as it was, so no epoch starts
+	refuseAt := map[int]bool{}
+	if vChance(r, 0.4) && len(tr.blocks) > 2 {
+		for k := 0; k < 1+r.Intn(3); k++ {
+			refuseAt[1+r.Intn(len(tr.blocks)-1)] = true
+		}
+	}
+	c.Describe("%s nchan=%d signed=%v npre/nsamp=%d/%d first=%d period=%v total=%d style=%d part=%s(%d blocks) mode=%s how0=%s set0=%s reconf=%v refused=%d jitter=%v",
+		prop, nchan, signed, tr.npre, tr.nsamp, firstFrame, period, total, style, vPartitionName(pkind), len(tr.blocks), mode, how0, set0[0].desc, reconfAt, len(refuseAt), tr.jitter)
 	c.Distinct("partition", vPartitionName(pkind))
 	c.Distinct("mode", mode+"/"+how0)
 	vBlockLog = vBlockLog[:0]
@@ -612,6 +634,42 @@ func vRunTrigCase(c *vCase, prop string) {
 					c.Inconclusive("setup", "ConfigurePulseLengths rejected: %v", err)
 					return
 				}
+			case "npre-swing":
+				if cur.npre < cur.nsamp/2 {
+					ne.npre = cur.nsamp - 6 - r.Intn(3)
+				} else {
+					ne.npre = 4 + r.Intn(6)
+				}
+				ne.lenChanged = true
+				c.Cov("reconf_npre_only", 1)
+				if err := f.ds.ConfigurePulseLengths(ne.nsamp, ne.npre); err != nil {
+					c.Inconclusive("setup", "ConfigurePulseLengths(%d,%d) rejected: %v", ne.nsamp, ne.npre, err)
+					return
+				}
+			case "npre-only":
+				// same record length, the trigger point moved (far up in half of the cases): whatever the search
+				// remembered about the stream under the old lengths must not be used to cut records under the new ones
+				emt := mode == "emt" || mode == "emtgroup"
+				lo, hi := 3, cur.nsamp-1
+				if emt {
+					lo, hi = 4, cur.nsamp-6
+				}
+				if hi <= lo {
+					ne.how = "len-same"
+				} else {
+					for ne.npre == cur.npre {
+						ne.npre = lo + r.Intn(hi-lo+1)
+						if vChance(r, 0.5) {
+							ne.npre = hi - r.Intn(min(3, hi-lo))
+						}
+					}
+					ne.lenChanged = true
+					c.Cov("reconf_npre_only", 1)
+				}
+				if err := f.ds.ConfigurePulseLengths(ne.nsamp, ne.npre); err != nil {
+					c.Inconclusive("setup", "ConfigurePulseLengths(%d,%d) rejected: %v", ne.nsamp, ne.npre, err)
+					return
+				}
 			case "len-change":
 				for {
 					ne.npre, ne.nsamp = vGenLengths(r)
@@ -631,6 +689,17 @@ func vRunTrigCase(c *vCase, prop string) {
 			tr.epochs = append(tr.epochs, ne)
 			cur = ne
 			c.Cov("reconfigurations", 1)
+		}
+		if refuseAt[bi] {
+			bad := TriggerState{EdgeMulti: true, EdgeRising: true, EdgeLevel: 10}
+			bad.EMTState.nmonotone = int32(cur.nsamp + 100)
+			for ch := 0; ch < nchan; ch++ {
+				if err := f.ds.ChangeTriggerState(&FullTriggerState{ChannelIndices: []int{ch}, TriggerState: bad}); err == nil {
+					c.Inconclusive("setup", "ChangeTriggerState accepted edge-multi settings with nmonotone > post-trigger length; the epoch model does not cover that")
+					return
+				}
+			}
+			c.Cov("refused_trigger_requests", 1)
 		}
 		tr.cuts[firstFrame+FrameIndex(f.pos)] = true
 		recs, err := f.push(n, nil, 0)
